@@ -18,6 +18,8 @@ def main(argv=None):
     ap.add_argument("--nproc", type=int)
     a = ap.parse_args(argv)
     import logging
+    import warnings
+    warnings.simplefilter("ignore")
     logging.getLogger("skfem").setLevel(logging.ERROR)  # monitors that judge warnings attach their own handler
     from . import engine
     try:
